@@ -6,6 +6,7 @@ Conf_ProxyProto (prefix law, field equality, consumed length, rejection of malfo
 import json
 import os
 import random
+import re
 import struct
 
 import vlib
@@ -254,15 +255,22 @@ def run(ctx):
             ks = sorted(set(list(range(0, 40)) + list(range(40, n, 997)) + list(range(max(0, n - 6), n + 1))))
             lines.append('p %s %s' % (hx(b), ','.join(map(str, ks))))
     ctx.log('driver built; %d inputs' % len(lines))
-    r = vlib.run_driver(exe, '\n'.join(lines) + '\n', timeout=900)
-    outs = [json.loads(l) for l in r.stdout.splitlines() if l.startswith('{')]
-    if len(outs) != len(lines):
-        if len(outs) < len(lines) and r.returncode != 0:
-            b = cases[len(outs)][0]
-            report(ctx, 'ProxyProtocol::Parse aborted the process (rc=%s) on a prefix of %r: %s' % (r.returncode, b, r.stderr[-600:]),
-                   {'class': dict(classify(b), shape='abort'), 'input_hex': b.hex(), 'line': lines[len(outs)]})
-            return
-        raise vlib.MachineryError('driver answered %d of %d (rc=%s) %s' % (len(outs), len(lines), r.returncode, r.stderr[-800:]))
+    outs, start, aborts = [], 0, 0
+    while start < len(lines):
+        r = vlib.run_driver(exe, '\n'.join(lines[start:]) + '\n', timeout=900)
+        got = [json.loads(l) for l in r.stdout.splitlines() if l.startswith('{')]
+        outs += got
+        start += len(got)
+        if start < len(lines):          # the driver died while parsing some prefix of this input: an `abort` case for TLC
+            if r.returncode == 0:
+                raise vlib.MachineryError('driver answered %d of %d lines but exited 0: %s' % (start, len(lines), r.stderr[-500:]))
+            m = re.search(r'(ERROR: AddressSanitizer[^\n]*|runtime error[^\n]*|[Aa]ssertion[^\n]*)', r.stderr)
+            outs.append({'s': list(cases[start][0]), 'ks': [0], 'pre': [1], 'res': [{'k': 'need'}], 'abort': True, 'ub': False, 'rc': r.returncode,
+                         'why': (m.group(1) if m else r.stderr[-300:])[:300]})
+            start += 1
+            aborts += 1
+            if aborts > 25:
+                raise vlib.MachineryError('driver keeps dying: ' + r.stderr[-800:])
     nprefix = sum(len(o['ks']) for o in outs)
     prej, irej = ucheck.conformance(ctx, os.path.join(SPEC, 'Conf_ProxyProto.tla'), os.path.join(SPEC, 'Conf_ProxyProto.cfg'), outs, 'proxyp', chunk=1500)
     ctx.log('TLC evaluated %d inputs (%d parser runs): P-rejected %d, I-rejected %d' % (len(outs), nprefix, len(prej), len(irej)))
@@ -271,6 +279,11 @@ def run(ctx):
         b, tag = cases[i]
         o = outs[i]
         cls = classify(b, o['res'][o['pre'][-1] - 1])
+        if o.get('abort'):
+            cls = dict(cls, shape='abort')
+            report(ctx, 'ProxyProtocol::Parse terminated the process (rc=%s: %s) on a prefix of %r' % (o.get('rc'), o.get('why'), b),
+                   {'class': cls, 'tag': tag, 'input_hex': b.hex(), 'line': lines[i]})
+            continue
         key = json.dumps(cls, sort_keys=True)
         shown[key] = shown.get(key, 0) + 1
         if shown[key] > 2 and cls['shape'] != 'other':
@@ -299,6 +312,7 @@ def run(ctx):
     ctx.cov['headers_returned'] = sum(1 for o in outs if o['res'][o['pre'][-1] - 1]['k'] == 'hdr')
     ctx.cov['rejected_inputs'] = sum(1 for o in outs if o['res'][o['pre'][-1] - 1]['k'] == 'rej')
     ctx.cov['ub_reports'] = sum(1 for o in outs if o['ub'])
+    ctx.cov['aborts'] = sum(1 for o in outs if o.get('abort'))
     for j in (0, len(outs) // 2, len(outs) - 1):
         o = outs[j]
         ctx.sample({'input': repr(cases[j][0][:80]), 'final': {k: v for k, v in o['res'][o['pre'][-1] - 1].items() if k not in ('sa', 'da', 'tlvs')}})
